@@ -63,8 +63,8 @@ def collect_cases(ctx, vh):
         add(*_tlc_gen(ctx, "gen-mesh3", "ObjMeshGen", "ObjMeshGen3.cfg"), "meshgen3")
     # (2) OBJ texts: every arrangement up to a depth, deeper random walks
     if tier == "quick":
-        add(*_tlc_gen(ctx, "gen-text", "ObjTextGen", "ObjTextGen5.cfg"), "textgen")
-        add(*_tlc_gen(ctx, "gen-textsim", "ObjTextGen", "ObjTextGenSim.cfg", simulate="num=60", depth=9), "textsim")
+        add(*_tlc_gen(ctx, "gen-text", "ObjTextGen", "ObjTextGen4.cfg"), "textgen")
+        add(*_tlc_gen(ctx, "gen-textsim", "ObjTextGen", "ObjTextGenSim.cfg", simulate="num=150", depth=9), "textsim")
     else:
         add(*_tlc_gen(ctx, "gen-text", "ObjTextGen", "ObjTextGen6.cfg", timeout=1500), "textgen")
         add(*_tlc_gen(ctx, "gen-textsim", "ObjTextGen", "ObjTextGenSim.cfg", simulate="num=1500", depth=9), "textsim")
@@ -277,9 +277,11 @@ def run_family(ctx, prefix="C05"):
     # vacuity guard: every predicate must have been evaluated with its antecedent true (a defect that
     # stops the pipeline early is reported as the violation it is, not as vacuity)
     idle = [p for p in PREDICATES if ex.get(p, 0) == 0]
-    if idle and not ctx.violations:
+    known = {k["signature"] for k in core.load_known() if k.get("property") == ctx.pid and k.get("status") == "open"}
+    fresh = [v for v in ctx.violations if v["signature"] not in known]
+    if idle and not fresh:
         raise core.Infra("predicates never exercised: %s" % idle)
-    if ctx.tier == "thorough" and not ctx.violations:
+    if ctx.tier == "thorough" and not fresh:
         ctx.extra["selftest_corruptions_rejected"] = selftest(ctx, raw)
     ctx.assumptions += [
         "the independent tokeniser (harness/objstl/obj_tok.go) reads OBJ text as the format description says",
